@@ -76,7 +76,10 @@ def run_history(chk, uni, drv, rng, length, stats):
     probe_sels = []
     for _ in range(nprobes):
         if rng.random() < 0.12:
-            probe_sels.append([rng.choice(L.REFUSED)])
+            # one refused selector, alone or among selectors that verify (before or after them)
+            sels = rng.sample(L.SELECTORS, rng.choice([0, 0, 1, 2]))
+            sels.insert(rng.randrange(len(sels) + 1), rng.choice(L.REFUSED))
+            probe_sels.append(sels)
         else:
             k = rng.choice([1, 1, 2])
             probe_sels.append(rng.sample(L.SELECTORS, k))
